@@ -276,7 +276,7 @@ func c12r2(r *R) {
 	oc := r.fn(mpkg, "OnProxyConnectResponse")
 	okS := false
 	for _, c := range calls(oc, nameIs("martian/proxyutil.NewResponse")) {
-		okS = describe(c.Common().Args[0]) == "$3.StatusCode" && describe(c.Common().Args[2]) == "$2"
+		okS = describe(refArgs(c.Common())[0]) == "$3.StatusCode" && describe(refArgs(c.Common())[2]) == "$2"
 	}
 	r.check(okS, "OnProxyConnectResponse#status", oc.Pos(), "relayed response carries the upstream's status", "relayed CONNECT rejection does not carry the upstream proxy's status")
 }
